@@ -14,6 +14,36 @@ COMMON_NOTE = (
 )
 TECH = "symbolic execution of the real Python on z3-backed proxy scalars (decision-tree re-execution), exact parametric-LP stub, SMT (QF_LRA) obligations per path, counterexamples replayed on the unshimmed code"
 CHECKS = {
+    "C11": {
+        "text": "Symbolic execution of contains_behavior / evaluate / substitute_variable with coefficients, constants and behaviour values all symbolic (small shapes, QF_NRA) and with concrete coefficients on larger shapes; the returned Boolean must equal the conjunction of the inequalities exactly (boundary included) and ValueError must be raised iff a variable with non-zero coefficient is unassigned. is_empty / is_polytope_empty with symbolic constants must agree with the exact projection. A combined harness decides consistency with refines.",
+        "design_ref": "DESIGN.md section 8 C11",
+        "note": COMMON_NOTE,
+        "technique": TECH + "; QF_NRA for symbolic coefficient products",
+    },
+    "C12": {
+        "text": "Symbolic execution of PolyhedralIoContract.optimize / get_variable_bounds / PolyhedralTermList.optimize (objective parsed by the real grammar) with symbolic contract constants; the value must equal the exact optimum computed by the oracle's own projection within 1e-6 relative, None iff feasible and unbounded in the requested direction, ValueError iff infeasible, bounds ordered (min, max) and enclosing every behaviour. Verifies pacti's glue (polarity, union of a and g, status mapping) under the documented LP contract; HiGHS quirks only via replay.",
+        "design_ref": "DESIGN.md section 8 C12",
+        "note": COMMON_NOTE,
+        "technique": TECH,
+    },
+    "C16": {
+        "text": "Term level: rename_variable with symbolic coefficients and constant, result compared coefficient-wise with the substituted map (incl. the cancelling case). Contract level: rename_variable / rename_variables with symbolic constants over all (source, target) cases and mapping sequences; interface compared with a reference written from the property text, meaning compared under the induced point substitution with the tolerant oracle (four queries per path), IncompatibleArgsError exactly for input/output clashes.",
+        "design_ref": "DESIGN.md section 8 C16",
+        "note": COMMON_NOTE,
+        "technique": TECH,
+    },
+    "C17": {
+        "text": "Symbolic execution of NestedTermList (constructor disjointness check, contains_behavior, <=, intersect) and IoContractCompound.merge with symbolic constants and behaviour values: membership == disjunction (exact), merged alternatives' union == intersection of unions (tolerant both ways) with no empty alternative kept (projection), <= True implies union containment, overlap ValueError iff two alternatives share a behaviour (exact projection; touching alternatives are the solver-found boundary).",
+        "design_ref": "DESIGN.md section 8 C17",
+        "note": COMMON_NOTE,
+        "technique": TECH,
+    },
+    "C19": {
+        "text": "Symbolic execution of __eq__/__hash__/copy of Var, PolyhedralTerm, PolyhedralTermList, PolyhedralIoContract and the compound contract. Term coefficients/constants symbolic (equality regions are solver-explored; formatted numbers are canonical tokens so that hash(str(term)) is faithful); the equality answer must coincide with field-wise equality for all constants on the path, equal objects must hash equally, copies must be equal and share no mutable state, single-field edits must compare unequal.",
+        "design_ref": "DESIGN.md section 8 C19",
+        "note": COMMON_NOTE,
+        "technique": TECH,
+    },
     "C07": {
         "text": "Symbolic execution of PolyhedralTermList.simplify / reduce_polytope / termlist_to_polytope / polytope_to_termlist and of the contract constructor and IoContract.simplify with symbolic constants on patterns with planted duplicates, scalings, positive combinations and context-implied terms. Per path: result is a selection of the input (constants provably equal), equivalent in context both ways, no kept term droppable with margin (decided quantifier-free through the exact projection), ValueError only on an infeasible system.",
         "design_ref": "DESIGN.md section 8 C07",
